@@ -505,7 +505,7 @@ func (g *dgen) method(svc *spec.Service, idx int) *spec.Method {
 				m.Cookies[name] = "c_" + name
 				g.feat("loc:cookie")
 			default:
-				f = g.bodyType(2)
+				f = g.bodyType(2 + t.Pick("deep-body", 3, 1)) // one body attribute in four may nest one level deeper (arrays of arrays of types, ...)
 				f.Name = name
 				g.requiredOrDefault(f)
 				hasBody = true
@@ -604,7 +604,7 @@ func (g *dgen) method(svc *spec.Service, idx int) *spec.Method {
 				resp.Cookies[name] = "rc_" + name
 				g.feat("rloc:cookie")
 			default:
-				f = g.bodyType(2)
+				f = g.bodyType(2 + t.Pick("deep-body", 3, 1)) // one body attribute in four may nest one level deeper (arrays of arrays of types, ...)
 				f.Name = name
 				g.requiredOrDefault(f)
 				g.feat("rloc:body")
@@ -1215,4 +1215,50 @@ func (g *dgen) newResultType() *spec.UserType {
 	}
 	g.d.Types = append(g.d.Types, u)
 	return u
+}
+
+// MatrixDesign is the one design of a batch that is not drawn: it enumerates how a user type can sit inside
+// collections (array>array>T, map>array>T, array>map>T, map>map>T, array>T, map>T, T) for three flavours of T
+// (only Required on primitives; validations; defaults), in request and response bodies. The validation and
+// transformation code goa generates recurses over exactly these shapes with a context (pointer or not, required
+// or not, use defaults or not) that changes at every level; random designs reach the deeper combinations rarely.
+func MatrixDesign(name string) *spec.Design {
+	d := &spec.Design{Name: name}
+	prim := func(n, k string) *spec.Attr { return &spec.Attr{Name: n, Type: &spec.Type{Kind: k}} }
+	req := func(a *spec.Attr) *spec.Attr { a.Required = true; return a }
+	ut := func(n string, fs ...*spec.Attr) *spec.UserType {
+		u := &spec.UserType{Name: n, Attr: &spec.Attr{Type: &spec.Type{Kind: spec.Object, Fields: fs}}}
+		d.Types = append(d.Types, u)
+		return u
+	}
+	withVal := func(a *spec.Attr, v *spec.Validation) *spec.Attr { a.Val = v; return a }
+	withDef := func(a *spec.Attr, v any) *spec.Attr { a.Default, a.HasDef = v, true; return a }
+	flavours := []*spec.UserType{
+		ut("MxReqOnly", req(prim("col", spec.Int)), req(prim("text", spec.String)), prim("opt", spec.Boolean)),
+		ut("MxValidated", req(withVal(prim("n", spec.Int), &spec.Validation{Min: fp(1), Max: fp(9)})),
+			withVal(prim("s", spec.String), &spec.Validation{Pattern: designPatterns[0]}), withVal(prim("e", spec.String), &spec.Validation{Enum: []any{"red", "green"}})),
+		ut("MxDefaulted", withDef(prim("d", spec.Int), float64(5)), withDef(prim("t", spec.String), "x"), req(prim("r", spec.Float64))),
+	}
+	svc := &spec.Service{Name: "matrix"}
+	for i, u := range flavours {
+		ref := func() *spec.Attr { return &spec.Attr{Type: &spec.Type{Kind: spec.User, Name: u.Name}} }
+		arr := func(e *spec.Attr) *spec.Attr { return &spec.Attr{Type: &spec.Type{Kind: spec.Array, Elem: e}} }
+		mp := func(e *spec.Attr) *spec.Attr {
+			return &spec.Attr{Type: &spec.Type{Kind: spec.Map, Key: &spec.Attr{Type: &spec.Type{Kind: spec.String}}, Elem: e}}
+		}
+		fields := func() []*spec.Attr {
+			fs := []*spec.Attr{ref(), arr(ref()), mp(ref()), arr(arr(ref())), mp(arr(ref())), arr(mp(ref())), mp(mp(ref()))}
+			for k, n := range []string{"t", "a", "m", "aa", "ma", "am", "mm"} {
+				fs[k].Name = n
+			}
+			return fs
+		}
+		m := &spec.Method{Name: []string{"req_only", "validated", "defaulted"}[i], Params: map[string]string{}, Headers: map[string]string{}, Cookies: map[string]string{},
+			Payload: &spec.Attr{Type: &spec.Type{Kind: spec.Object, Fields: fields()}}, Result: &spec.Attr{Type: &spec.Type{Kind: spec.Object, Fields: fields()}},
+			Routes: []*spec.Route{{Verb: "POST", Path: "/matrix/" + []string{"req_only", "validated", "defaulted"}[i]}}, Responses: []*spec.Response{{Status: 200, Headers: map[string]string{}, Cookies: map[string]string{}}}}
+		svc.Methods = append(svc.Methods, m)
+	}
+	d.Services = []*spec.Service{svc}
+	d.Features = []string{"matrix:nesting"}
+	return d
 }
